@@ -685,6 +685,8 @@ def case_history(c):
                     elif op == 'set1':
                         if len(cad.frames) >= 2:
                             cad[1] = pool[npool]; npool += 1
+                    elif op in ('ins0', 'app') and c['kind'] == 'ordered' and len(cad.frames) >= 6:
+                        pass          # the order string 'ABACAD' has no letter for a seventh frame (C18's business): not attempted
                     elif op == 'ins0':
                         cad.insert(0, early[nearly]); nearly += 1
                     elif op == 'app':
